@@ -1,1 +1,8 @@
 import RvModel.Num
+import RvModel.Prelude
+import RvModel.FloatInst
+import RvModel.Wire
+import RvModel.RealInst
+import RvModel.Gen.Defs
+import RvModel.Gen.Dispatch
+import RvModel.Hand.Dispatch
